@@ -119,11 +119,11 @@ type Sim struct {
 
 	strat strategy
 
-	MaxSteps   uint64
-	Exhausted  bool // the step / tape budget ran out
+	MaxSteps  uint64
+	Exhausted bool // the step / tape budget ran out
 	// Mute drops violations (used while a fault-injected phase runs whose
 	// verdict is judged afterwards by the recovery check instead).
-	Mute bool
+	Mute       bool
 	Counters   map[string]int64
 	Violations []Violation
 	// StopOnViolation makes Run return as soon as a violation is recorded.
